@@ -38,6 +38,11 @@ def run_cell(prog, env, model, fn, vtype, name, exists, existing_type, replace, 
             st.trace.append(('mut', nm, tuple(vkey(a) for a in args)))
             if nm in ('json_object_set_new',) and (args[2] is NULL):
                 return [(st, Int(-1))]
+            if nm in ('json_integer_set', 'json_real_set'):
+                # jansson: these fail exactly when the target is not of that type; they do not allocate
+                t = st.mem.get((args[0].loc, 'type')) if isinstance(args[0], Ref) else None
+                right = JSON_TYPES['integer' if nm == 'json_integer_set' else 'real']
+                return [(st, Int(0 if isinstance(t, Int) and t.v == right else -1))]
             return [(st, Int(rc))]
         return h
 
@@ -131,8 +136,11 @@ def check_setter(chk, prog, env, model):
                     want_code = V['NONE'] if rc == 0 else V['INVALID']
             for code, er, muts, flags, s, it in outs:
                 problems = []
-                if code != want_code:
-                    problems.append('returns %s, expected %s' % (code, want_code))
+                wc = want_code
+                if muts == ('json_integer_set',) and muts in want_muts:
+                    wc = V['NONE']      # the in-place update of an integer member cannot fail (see mut())
+                if code != wc:
+                    problems.append('returns %s, expected %s' % (code, wc))
                 if er != code:
                     problems.append('returned code %s differs from value->error %s' % (code, er))
                 if muts not in want_muts:
